@@ -52,9 +52,11 @@ def demos(seed):
             placed.append((files[base], dst))
     cmds = []
     for ln in txt.splitlines():
-        ln = ln.strip().lstrip("$ ").strip("`")
-        if ln.startswith("go test") and ln not in cmds:
-            cmds.append(ln)
+        i = ln.find("go test ")
+        if i >= 0:
+            c = ln[i:].strip().strip("`").strip()
+            if c not in cmds:
+                cmds.append(c)
     return placed, cmds[:2]
 
 
